@@ -219,6 +219,27 @@ def sanitizer_kind(msgs):
     return ""
 
 
+COUNT_EVENTS = {"allocNegative", "allocHuge", "allocUnbounded", "loopUnbounded"}
+PRED_ORDER = ["vecOverflow", "writeUnsized", "useAfterClear", "count", "gridSizeMismatch", "badEnum", "badDims", "emptyPolyline"]
+LENIENT_ORDER = ["dbPartIgnored", "uninitReturn", "wordAsZero", "eofDefault"]
+
+
+def pred_class(unsafe):
+    """the memory-unsafe / unbounded behaviour that the transcription of the real reader predicts for a file"""
+    ev = {("count" if e in COUNT_EVENTS else e) for e in unsafe}
+    for k in PRED_ORDER:
+        if k in ev:
+            return k
+    return "+".join(sorted(ev)) or "none"
+
+
+def lenient_class(rev):
+    for k in LENIENT_ORDER:
+        if k in rev:
+            return k
+    return "none"
+
+
 def judge_objects(ck, recs, tag, workers=1):
     """TLC judges the consistency of every object returned by a loader (TraceNeutralFault)"""
     w = ck.work
@@ -250,9 +271,9 @@ def evaluate(ck, files, outs, sani, tag):
         oc = o["outcome"]
         msgs = sani.get(f["id"], [])
         sk = sanitizer_kind(msgs)
-        pred = "+".join(sorted(f.get("unsafe", []))) or "none"
-        rec = {"class": f["c"], "fault": f["kind"], "repl": f.get("t", ""), "pred": pred,
-               "verdict": f.get("verdict", "?"), "rat": f.get("rat", ""), "lenient": "+".join(sorted(set(f.get("rev", [])) & {"eofDefault", "wordAsZero", "dbPartIgnored", "uninitReturn"})) or "none"}
+        rec = {"class": f["c"], "fault": f["kind"], "repl": f.get("t", ""), "pred": pred_class(f.get("unsafe", [])),
+               "pred_events": "+".join(sorted(f.get("unsafe", []))) or "none",
+               "verdict": f.get("verdict", "?"), "rat": f.get("rat", ""), "lenient": lenient_class(f.get("rev", []))}
         replay = {"class": f["c"], "file_text": f["text"], "fault": {k: f.get(k) for k in ("kind", "k", "t", "base")},
                   "model": {k: f.get(k) for k in ("verdict", "rok", "rat", "rev", "unsafe", "diverge")},
                   "observed": {k: v for k, v in o.items() if k not in ("p", "q", "p2")}, "sanitizer": msgs,
